@@ -47,6 +47,7 @@ ABORT_ROOTS = ["8/8/8/3k4/8/2r5/8/KQ6 w - - 0 1", "8/8/4k3/8/2b5/8/1R6/K7 w - - 
 def job(args):
     opts, items = args      # items: (fen, expect, value[, pre]) — pre: a command sent before `position` ("ucinewgame", "setoption name Clear Hash")
     recs, hist = [], []
+    tgen = 0.0          # longest time from `go` to the first iteration line seen so far: an estimate of the table generation time
     eng = uci.Engine("plain", "material", 1)
     try:
         eng.handshake()
@@ -59,7 +60,7 @@ def job(args):
                 # a search on other material whose table generation is cut short by `stop`: whatever it leaves behind must not be used afterwards
                 t = pre.split()
                 eng.send("position fen " + " ".join(t[2:])); eng.send("go infinite")
-                time.sleep(float(t[1]))
+                time.sleep(float(t[1]) * (tgen if tgen > 0.3 else 1.5))      # a fraction of the generation time measured in this process
                 eng.send("stop")
                 try:
                     eng.read_until(lambda l: l.startswith("bestmove"), 60)
@@ -68,12 +69,15 @@ def job(args):
             elif pre:
                 eng.send(pre); eng.isready()
             eng.send(f"position fen {fen}"); eng.send("go infinite")
+            t_go, t_first = time.time(), None
             out, t_end, done = [], time.time() + 12.0, False
             want_mate = expect.startswith("mate")
             while time.time() < t_end and not done:
                 for l in eng.drain(0.05):
                     out.append(l)
                     if l.startswith("info depth") and " pv " in l:
+                        if t_first is None:
+                            t_first = time.time() - t_go; tgen = max(tgen, t_first)
                         d = uci.parse_info(l)
                         if (want_mate and d.get("score_kind") == "mate" and "bound" not in d and d["depth"] >= 2) or d.get("depth", 0) >= 9:
                             done = True
@@ -152,7 +156,7 @@ def run(ctx):
             # a third of the roots follow `ucinewgame` / Clear Hash in the same process: the hosted table must be dropped or stay valid
             pre = r.choice(["", "", "", "", "ucinewgame", "setoption name Clear Hash"]) if items else ""
             if items and len(cls) == 2 and r.random() < 0.3:
-                pre = f"abort {r.choice([0.05, 0.2, 0.5, 0.9, 1.4])} {r.choice(ABORT_ROOTS)}"
+                pre = f"abort {r.choice([0.3, 0.5, 0.7, 0.85, 1.0, 1.2])} {r.choice(ABORT_ROOTS)}"
             items.append((f, e, v, pre))
             stats["positions"] += 1; stats["won"] += v.startswith("win"); stats["lost"] += v.startswith("loss"); stats["drawn"] += v == "draw"
             stats["mate_outside_50_move_window"] += (v != "draw" and e == "nomate")
